@@ -1,14 +1,14 @@
 #!/bin/bash
 # Re-runs every seeded change against the check that owns it (from meta.json "ran") and records exit codes.
-# usage: ./seedall.sh [pattern]      -> seeded/ALL_DETECT.txt
+# usage: ./seedall.sh [pattern [suffix]]      -> seeded/ALL_DETECT[_suffix].txt
 cd /verif
-out=seeded/ALL_DETECT.txt
+out=seeded/ALL_DETECT${2:+_$2}.txt
 : > $out
 for m in seeded/${1:-*}/meta.json; do
   id=$(basename $(dirname $m))
   cmd=$(python3 -c "import json,sys; print(json.load(open('$m')).get('ran',''))")
-  case "$cmd" in ./seedtest.sh*) ;; *) echo "$id: no command" >> $out; continue;; esac
-  res=$($cmd 2>&1 | grep -E "^RESULT" | sed -E 's/.*(new=[0-9]+).*(inconclusive=[0-9]+).*(exit=[0-9]+).*/\1 \2 \3/' | tr '\n' ';')
+  case "$cmd" in ./seedtest.sh*|TIER=*) ;; *) echo "$id: no command" >> $out; continue;; esac
+  res=$(eval "$cmd" 2>&1 | grep -E "^RESULT" | sed -E 's/.*(new=[0-9]+).*(inconclusive=[0-9]+).*(exit=[0-9]+).*/\1 \2 \3/' | tr '\n' ';')
   echo "$id: $cmd -> $res" >> $out
 done
 echo finished >> $out
